@@ -38,6 +38,8 @@ struct Trace {
 /// menu for poll_read with `avail` deliverable bytes: [Full, Pending, Short(1), .., Short(avail-1)]
 /// menu for poll_complete: [Ready, Pending]
 struct ScriptedFile {
+    /// every read delivers at most this many bytes (0 = no limit), on top of the scripted answers
+    max_read: usize,
     data: Arc<Vec<u8>>,
     pos: u64,
     choices: Vec<usize>,
@@ -69,6 +71,7 @@ impl AsyncRead for ScriptedFile {
             return Poll::Ready(Err(std::io::Error::new(std::io::ErrorKind::Other, "replay divergence")));
         }
         let take = match c {
+            0 if self.max_read > 0 => avail.min(self.max_read),
             0 => avail,
             1 => {
                 cx.waker().wake_by_ref();
@@ -126,8 +129,12 @@ fn poll_to_end<F: std::future::Future>(fut: F) -> Result<F::Output, String> {
 
 /// One execution of the local reader under `choices`; returns items and the decision trace.
 fn run_local(data: &Arc<Vec<u8>>, ranges: &[(u64, usize)], use_read_at: bool, choices: &[usize]) -> Result<(Vec<Item>, Vec<usize>, Vec<usize>), String> {
+    run_local_max(data, ranges, use_read_at, choices, 0)
+}
+
+fn run_local_max(data: &Arc<Vec<u8>>, ranges: &[(u64, usize)], use_read_at: bool, choices: &[usize], max_read: usize) -> Result<(Vec<Item>, Vec<usize>, Vec<usize>), String> {
     let tr = Arc::new(Mutex::new(Trace { alts: vec![], chosen: vec![] }));
-    let f = ScriptedFile { data: data.clone(), pos: 0, choices: choices.to_vec(), tr: tr.clone(), pending_armed: false };
+    let f = ScriptedFile { max_read, data: data.clone(), pos: 0, choices: choices.to_vec(), tr: tr.clone(), pending_armed: false };
     let mut reader = IoReader::new(f);
     let items = catch(|| {
         poll_to_end(async {
@@ -293,6 +300,33 @@ fn local_leg(rep: &mut Report) {
         agg
     });
     rep.agg.merge(a);
+    // sizes around 2^16 / 2^17 on a larger file with data after the requested range (read_at is
+    // what reads the header: dictionaries beyond 64 KiB exist)
+    {
+        let big: Arc<Vec<u8>> = Arc::new((0..300_000u32).map(|i| (i * 31 + i / 977) as u8).collect());
+        let mut agg = Agg::default();
+        for size in [65_535usize, 65_536, 65_537, 100_000, 131_072, 131_073, 262_145] {
+            for offset in [0u64, 1, 4097] {
+                for (api, script, max_read) in [(true, vec![], 0usize), (true, vec![1usize], 0), (true, vec![], 4096), (true, vec![1, 1], 65_536), (false, vec![], 0), (false, vec![1], 50_000), (false, vec![], 70_000)] {
+                    // script entries are menu indexes at the first decision points (0 = full, 1 = pending);
+                    // max_read caps every read (short reads of 4 kB / 50 kB / 64 kB / 70 kB)
+                    let ranges = vec![(offset, size), (offset + size as u64, 7)];
+                    let (items, _alts, chosen) = match run_local_max(&big, &ranges, api, &script, max_read) {
+                        Ok(x) => x,
+                        Err(e) => machinery(e),
+                    };
+                    agg.add("local_executions", 1);
+                    agg.add("local_large_read_cases", 1);
+                    let want = expected_local(&big, &ranges);
+                    if let Some(class) = judge_items(&items, &want) {
+                        agg.viol(&format!("local:{class}"), || json!({"leg": "local-large", "api": if api { "read_at" } else { "read_chunks" }, "file_len": big.len(), "ranges": ranges, "answers": chosen, "max_read": max_read,
+                            "item_lengths": items.iter().map(|i| match i { Item::Bytes(b) => b.len() as i64, Item::Err(_) => -1 }).collect::<Vec<_>>()}));
+                    }
+                }
+            }
+        }
+        rep.agg.merge(agg);
+    }
     rep.set("local_range_lists", json!(lists.len()));
     rep.set("local_deviation_bound", json!(bound));
 }
@@ -673,7 +707,7 @@ pub fn c08(rep: &mut Report) {
     rep.set("evaluations", json!(ev));
     rep.set("distinct_nontrivial", json!(rep.agg.distinct_count("local_outcomes") + rep.agg.distinct_count("http_outcomes")));
     rep.set("exhaustive", json!(rep.agg.get("local_capped_lists") == 0));
-    rep.set("rule", json!("local: IoReader over a scripted 12-byte file, all lists of <=2 (quick: + a slice of triples; thorough: all <=3) ranges over offsets {0,3,5,9} x sizes {1,3,4} (adjacent, gapped, overlapping, unordered, past EOF), read_at and read_chunks, every answer script with <= bound deviations from Full (Short(k) for every k, Pending at every poll of read / seek completion; complete tree for single ranges); http: HttpReader against a scripted loopback server, 8 range lists x every single/double body split x every fault sequence of <=2/3 faults from {Refuse, CutAfter(k) for all k} x retry budgets 0..3, oracle = reference model of the resuming retry loop (exact items, exact resume offsets in the request log, error iff faults exceed the budget or a body ends early); archive level: Archive::chunk_stream yields nothing after its first error, and the real clone_cmd with --http-retry-count b survives exactly b cut or refused transfers per run (b in 0..3, 0..4 faults); non-trivial = distinct (ranges, script) cases"));
+    rep.set("rule", json!("local: IoReader over a scripted 12-byte file, all lists of <=2 (quick: + a slice of triples; thorough: all <=3) ranges over offsets {0,3,5,9} x sizes {1,3,4} (adjacent, gapped, overlapping, unordered, past EOF), read_at and read_chunks, every answer script with <= bound deviations from Full (Short(k) for every k, Pending at every poll of read / seek completion; complete tree for single ranges; plus read_at / read_chunks of sizes around 2^16, 2^17, 2^18 at three offsets of a 300 kB file); http: HttpReader against a scripted loopback server, 8 range lists x every single/double body split x every fault sequence of <=2/3 faults from {Refuse, CutAfter(k) for all k} x retry budgets 0..3, oracle = reference model of the resuming retry loop (exact items, exact resume offsets in the request log, error iff faults exceed the budget or a body ends early); archive level: Archive::chunk_stream yields nothing after its first error, and the real clone_cmd with --http-retry-count b survives exactly b cut or refused transfers per run (b in 0..3, 0..4 faults); non-trivial = distinct (ranges, script) cases"));
     rep.assume("zero-length ranges are outside C08 (valid archives never store empty chunks); they are judged under C15");
     rep.assume("A4: real loopback TCP; body fragmentation is scripted on the server (flush + 1.5 ms pause) and may be coalesced by the client's transport");
 }
@@ -753,17 +787,94 @@ pub fn c07(rep: &mut Report) {
         agg
     });
     rep.agg.merge(a);
+    chunk_stream_leg(rep);
     rep.set("chunks", json!(n));
     rep.set("layouts", json!(layouts.iter().map(|l| l.0.clone()).collect::<Vec<_>>()));
     rep.set("evaluations", json!(rep.agg.get("subsets")));
     rep.set("distinct_nontrivial", json!(rep.agg.distinct_count("request_patterns")));
     rep.set("exhaustive", json!(true));
-    rep.set("rule", json!("every subset (2^n) of the descriptors of three archive layouts (contiguous; with gaps; descriptor order != file order) is requested through the real HttpReader::read_chunks in descriptor order against a logging loopback server, with and without keep-alive, half of the contiguous layout's subsets with the response bodies flushed at (or one byte past) every chunk boundary; oracle: logged Range sequence == maximal runs of list- and offset-adjacent missing chunks with inclusive bounds first.offset .. last.end-1; non-trivial = distinct expected request patterns"));
+    rep.set("rule", json!("every subset (2^n) of the descriptors of three archive layouts (contiguous; with gaps; descriptor order != file order) is requested through the real HttpReader::read_chunks in descriptor order against a logging loopback server, with and without keep-alive, half of the contiguous layout's subsets with the response bodies flushed at (or one byte past) every chunk boundary; the same through Archive::chunk_stream on real archives whose sources repeat chunks (all subsets of the unique chunks); oracle: logged Range sequence == maximal runs of list- and offset-adjacent missing chunks with inclusive bounds first.offset .. last.end-1; non-trivial = distinct expected request patterns"));
     rep.assume("in the absence of transfer failures (C08 covers those); the library-level subset is induced directly through read_chunks exactly as Archive::chunk_stream builds it; the CLI leg induces subsets through seeds");
+}
+
+/// The same oracle one level up: `Archive::chunk_stream(&index)` on archives written by the real
+/// writer whose sources repeat chunks (consecutively and not), for every subset of the unique
+/// chunks left to fetch.
+fn chunk_stream_leg(rep: &mut Report) {
+    use crate::clonelab::{build_arch, new_rt, Comp};
+    use crate::refchunk::Cfg;
+    let words: Vec<&[u8]> = vec![b"AAAA", b"BBBB", b"CCCC", b"DDDD", b"EEEE"];
+    let seqs: Vec<Vec<usize>> = vec![vec![0, 1, 0, 2], vec![0, 0, 1, 2, 1, 3], vec![0, 1, 2, 3, 4], vec![2, 1, 0, 1, 2, 3, 0, 4], vec![0, 1, 2, 0, 1, 2]];
+    let seqs_ref = &seqs;
+    let a = par_shards(seqs.len(), threads(), |si| {
+        let mut agg = Agg::default();
+        let rt0 = new_rt();
+        let mut source = vec![];
+        for &w in &seqs_ref[si] {
+            source.extend_from_slice(words[w]);
+        }
+        let arch = build_arch(&rt0, &Cfg::fixed(4), 64, &Comp::None, &source, 2).unwrap_or_else(|e| machinery(e));
+        let lab = HttpLab::new();
+        lab.pooled.set(true);
+        let nd = arch.descs.len();
+        for mask in 0..(1usize << nd) {
+            lab.server.arm(&arch.bytes, Script { faults: vec![], splits: vec![], keep_alive: true });
+            let reader = lab.reader(0);
+            let r = catch(|| {
+                lab.rt.block_on(async {
+                    let mut archive = bitar::Archive::try_init(reader).await.map_err(|e| format!("{e}"))?;
+                    // the index of what is still missing: the source index minus the chunks not in the subset
+                    let mut idx = archive.build_source_index();
+                    let hashes: Vec<bitar::HashSum> = archive.chunk_descriptors().iter().map(|d| d.checksum.clone()).collect();
+                    for (i, h) in hashes.iter().enumerate() {
+                        if mask >> i & 1 == 0 {
+                            idx.remove(h);
+                        }
+                    }
+                    let mut st = archive.chunk_stream(&idx);
+                    let mut n = 0usize;
+                    while let Ok(Some(item)) = tokio::time::timeout(std::time::Duration::from_secs(10), st.next()).await {
+                        item.map_err(|e| format!("{e}"))?;
+                        n += 1;
+                        if n > 64 {
+                            return Err("horizon".to_string());
+                        }
+                    }
+                    Ok::<usize, String>(n)
+                })
+            });
+            agg.add("chunk_stream_subsets", 1);
+            let want_ranges: Vec<(u64, usize)> = arch.descs.iter().enumerate().filter(|(i, _)| mask >> i & 1 == 1).map(|(_, d)| (d.0, d.1)).collect();
+            let want: Vec<Option<(u64, u64)>> = runs_of(&want_ranges).iter().map(|r| Some((r.0, r.1 - 1))).collect();
+            let got: Vec<Option<(u64, u64)>> = lab.server.log().iter().skip(2).map(|l| l.range).collect();
+            let detail = || json!({"leg": "chunk-stream", "source_words": seqs_ref[si], "subset_mask": mask, "requests": got, "expected": want, "result": format!("{:?}", r)});
+            match &r {
+                Ok(Ok(nitems)) => {
+                    if got != want {
+                        let class = if got.len() > want.len() { "adjacent-chunks-not-coalesced" } else if got.len() < want.len() { "non-adjacent-chunks-in-one-request" } else { "range-bounds-wrong" };
+                        agg.viol(class, detail);
+                    } else if *nitems != want_ranges.len() {
+                        agg.viol("wrong-chunk-data", detail);
+                    }
+                }
+                _ => agg.viol("chunk-stream-failed", detail),
+            }
+            agg.distinct("request_patterns", fnv(format!("cs{si}{:?}", want).as_bytes()));
+        }
+        agg
+    });
+    rep.agg.merge(a);
+    let n = rep.agg.get("chunk_stream_subsets");
+    rep.agg.add("subsets", n);
 }
 
 pub fn replay(pid: &str, v: &Value) -> bool {
     let mut agg = Agg::default();
+    if pid == "C07" && v["leg"].as_str() == Some("chunk-stream") {
+        let mut rep = Report::new("C07", "exploration", "quick", 0);
+        chunk_stream_leg(&mut rep);
+        return !rep.agg.classes.is_empty();
+    }
     if pid == "C07" {
         let descs: Vec<(u64, usize)> = serde_json::from_value(v["descriptors"].clone()).unwrap();
         let mask = v["subset_mask"].as_u64().unwrap() as usize;
